@@ -1,31 +1,277 @@
+// c09: harness for "the native Go backend behaves like the bytecode VM".
+//
+// -mode helpers (default): correspondence stream c09.helpers. Calls the Int runtime helpers the
+// generated Go code uses (value.AddInts, SubtractInts, MultiplyInts, DivideInts, ModuloInts,
+// GreaterThanInts, GreaterThanEqualInts, LessThanInts, LessThanEqualInts, EqualInts) and, as a
+// second oracle on the implementation's own outputs, the functions behind the VM's typed
+// opcodes (SmallInt/BigInt .AddVal ... as vm.opAddInt calls them); prints the helper's result
+// in the model's vocabulary, suffixed " VMDIFF <vm result>" when the two differ and " MUT"
+// when an operand was modified.  Input line: "<op> <repr_a> <a> <repr_b> <b>".
+//
+// -mode emit -src f.elk -out main.go [-pkg name]: runs the checker with the Go backend
+// (checker.CheckSourceNative, exactly what elk.CompileSource does) and writes the gofmt'ed
+// generated source.  With -pkg the two tokens that make the file a program (`package main`,
+// `func main()`) are rewritten to `package <name>` / `func Main()` so that many generated
+// programs can be linked into one binary.  Exit status: 0 emitted, 2 rejected by
+// checker/back end (diagnostics on stdout), 3 generated source does not parse (gofmt);
+// a Go panic inside the back end kills the process (status 2 from the Go runtime, "panic:" on
+// stderr) - the caller classifies that.
 package main
 
 import (
 	"bytes"
+	"flag"
 	"fmt"
 	"go/format"
+	"math/big"
 	"os"
+	"strings"
+
+	"verifharness/hx"
 
 	"github.com/elk-language/elk/bitfield"
 	"github.com/elk-language/elk/types/checker"
+	"github.com/elk-language/elk/value"
 )
 
-func main() {
-	src, _ := os.ReadFile(os.Args[1])
-	var buffer bytes.Buffer
-	gc, diags := checker.CheckSourceNative(os.Args[1], string(src), nil, bitfield.BitField16{}, &buffer, nil)
-	if diags != nil {
-		fmt.Fprintln(os.Stderr, diags.Error())
+func mk(repr string, z *big.Int) value.Value {
+	if repr == "S" {
+		return value.SmallInt(z.Int64()).ToValue()
 	}
-	if gc == nil || (diags != nil && diags.IsFailure()) {
-		os.Exit(2)
+	return value.Ref(value.ToElkBigInt(new(big.Int).Set(z)))
+}
+
+func reprOf(z *big.Int) string {
+	if z.IsInt64() {
+		return "S"
+	}
+	return "B"
+}
+
+func show(v value.Value, err value.Value) string {
+	if !err.IsUndefined() {
+		cls := err.Class().Name
+		if strings.Contains(cls, "ZeroDivision") {
+			return "err 1"
+		}
+		return "err 2 " + cls
+	}
+	if v.IsSmallInt() {
+		return fmt.Sprintf("ok S %d", int64(v.AsSmallInt()))
+	}
+	if v.IsTrue() {
+		return "ok T"
+	}
+	if v.IsFalse() {
+		return "ok F"
+	}
+	if v.IsReference() {
+		if b, ok := v.AsReference().(*value.BigInt); ok {
+			return "ok B " + b.ToGoBigInt().String()
+		}
+	}
+	return "other " + v.Inspect()
+}
+
+func u(v value.Value) (value.Value, value.Value) { return v, value.Undefined }
+
+// the helper the Go backend emits
+func helper(op string, a, b value.Value) (value.Value, value.Value) {
+	switch op {
+	case "add":
+		return u(value.AddInts(a, b))
+	case "sub":
+		return u(value.SubtractInts(a, b))
+	case "mul":
+		return u(value.MultiplyInts(a, b))
+	case "div":
+		return value.DivideInts(a, b)
+	case "mod":
+		return value.ModuloInts(a, b)
+	case "gt":
+		return u(value.BoolVal(value.GreaterThanInts(a, b)))
+	case "ge":
+		return u(value.BoolVal(value.GreaterThanEqualInts(a, b)))
+	case "lt":
+		return u(value.BoolVal(value.LessThanInts(a, b)))
+	case "le":
+		return u(value.BoolVal(value.LessThanEqualInts(a, b)))
+	case "eq":
+		return u(value.BoolVal(value.EqualInts(a, b)))
+	}
+	panic("unknown op " + op)
+}
+
+// what the VM's typed opcode does (vm/thread.go opAddInt ... opEqualInt): dispatch on the
+// left operand's representation, then the *Val method
+func vmop(op string, a, b value.Value) (value.Value, value.Value) {
+	if a.IsSmallInt() {
+		l := a.AsSmallInt()
+		switch op {
+		case "add":
+			return l.AddVal(b)
+		case "sub":
+			return l.SubtractVal(b)
+		case "mul":
+			return l.MultiplyVal(b)
+		case "div":
+			return l.DivideVal(b)
+		case "mod":
+			return l.ModuloVal(b)
+		case "gt":
+			return l.GreaterThanVal(b)
+		case "ge":
+			return l.GreaterThanEqualVal(b)
+		case "lt":
+			return l.LessThanVal(b)
+		case "le":
+			return l.LessThanEqualVal(b)
+		case "eq":
+			return u(l.EqualVal(b))
+		}
+	} else {
+		l := a.AsReference().(*value.BigInt)
+		switch op {
+		case "add":
+			return l.AddVal(b)
+		case "sub":
+			return l.SubtractVal(b)
+		case "mul":
+			return l.MultiplyVal(b)
+		case "div":
+			return l.DivideVal(b)
+		case "mod":
+			return l.ModuloVal(b)
+		case "gt":
+			return l.GreaterThanVal(b)
+		case "ge":
+			return l.GreaterThanEqualVal(b)
+		case "lt":
+			return l.LessThanVal(b)
+		case "le":
+			return l.LessThanEqualVal(b)
+		case "eq":
+			return u(l.EqualVal(b))
+		}
+	}
+	panic("unknown op " + op)
+}
+
+func bigOf(v value.Value) *big.Int {
+	if v.IsSmallInt() {
+		return big.NewInt(int64(v.AsSmallInt()))
+	}
+	return new(big.Int).Set(v.AsReference().(*value.BigInt).ToGoBigInt())
+}
+
+func run(input string) string {
+	f := strings.Fields(input)
+	if len(f) != 5 {
+		return "bad-input"
+	}
+	a, ok1 := new(big.Int).SetString(f[2], 10)
+	b, ok2 := new(big.Int).SetString(f[4], 10)
+	if !ok1 || !ok2 {
+		return "bad-input"
+	}
+	return hx.Guard(func() string {
+		av, bv := mk(f[1], a), mk(f[3], b)
+		r, e := helper(f[0], av, bv)
+		s := show(r, e)
+		if bigOf(av).Cmp(a) != 0 || bigOf(bv).Cmp(b) != 0 {
+			s += " MUT"
+		}
+		av2, bv2 := mk(f[1], a), mk(f[3], b)
+		r2, e2 := vmop(f[0], av2, bv2)
+		if s2 := show(r2, e2); s2 != s {
+			s += " VMDIFF " + s2
+		}
+		return s
+	})
+}
+
+var ops = []string{"add", "sub", "mul", "div", "mod", "gt", "ge", "lt", "le", "eq"}
+
+func helpers(o *hx.Opts) {
+	defer hx.Flush()
+	for i, in := range hx.ReadInputs(o.Input) {
+		hx.Emit(fmt.Sprintf("c%d", i), in, run(in))
+	}
+	r := hx.NewRng(o.Seed)
+	for i := 0; i < o.N; i++ {
+		var a, b *big.Int
+		switch r.Below(6) {
+		case 0:
+			a, b = r.BoundaryInt(), r.BoundaryInt()
+		case 1:
+			a, b = r.BigBits(r.Range(1, 200)), r.BigBits(r.Range(1, 200))
+		case 2:
+			a, b = r.BoundaryInt(), big.NewInt(int64(r.Range(-4, 4)))
+		case 3:
+			a, b = r.BigBits(r.Range(1, 70)), r.BoundaryInt()
+		case 4:
+			// products / sums that land next to +-2^63
+			a = r.BigBits(r.Range(28, 36))
+			b = new(big.Int).Quo(new(big.Int).Lsh(big.NewInt(1), 63), new(big.Int).Add(new(big.Int).Abs(a), big.NewInt(1)))
+			b.Add(b, big.NewInt(int64(r.Range(-2, 2))))
+		default:
+			a = r.BoundaryInt()
+			b = new(big.Int).Add(a, big.NewInt(int64(r.Range(-1, 1))))
+			if r.Chance(1, 2) {
+				b.Neg(b)
+			}
+		}
+		op := hx.Pick(r, ops)
+		in := fmt.Sprintf("%s %s %s %s %s", op, reprOf(a), a, reprOf(b), b)
+		hx.Emit(fmt.Sprintf("g%d", i), in, run(in))
+	}
+}
+
+func emit(src, out, pkg string) int {
+	text, err := os.ReadFile(src)
+	if err != nil {
+		fmt.Println("cannot read", src)
+		return 4
+	}
+	var buffer bytes.Buffer
+	gc, diags := checker.CheckSourceNative(src, string(text), nil, bitfield.BitField16{}, &buffer, nil)
+	if diags != nil && diags.IsFailure() || gc == nil {
+		if diags != nil {
+			fmt.Println(diags.Error())
+		}
+		return 2
 	}
 	gc.Flush()
-	res, err := format.Source(buffer.Bytes())
-	if err != nil {
-		os.Stdout.Write(buffer.Bytes())
-		fmt.Fprintln(os.Stderr, "format:", err)
-		os.Exit(3)
+	res, ferr := format.Source(buffer.Bytes())
+	if ferr != nil {
+		os.WriteFile(out, buffer.Bytes(), 0644)
+		fmt.Println("gofmt:", ferr)
+		return 3
 	}
-	os.Stdout.Write(res)
+	code := string(res)
+	if pkg != "" {
+		if !strings.HasPrefix(code, "package main\n") || strings.Count(code, "\nfunc main() {") != 1 {
+			fmt.Println("unexpected shape of the generated file")
+			return 3
+		}
+		code = "package " + pkg + "\n" + strings.TrimPrefix(code, "package main\n")
+		code = strings.Replace(code, "\nfunc main() {", "\nfunc Main() {", 1)
+	}
+	if err := os.WriteFile(out, []byte(code), 0644); err != nil {
+		fmt.Println("cannot write", out)
+		return 4
+	}
+	return 0
+}
+
+func main() {
+	mode := flag.String("mode", "helpers", "helpers|emit")
+	src := flag.String("src", "", "emit: Elk source file")
+	out := flag.String("out", "", "emit: Go file to write")
+	pkg := flag.String("pkg", "", "emit: rename package main / func main")
+	o := hx.ParseFlags()
+	if *mode == "emit" {
+		os.Exit(emit(*src, *out, *pkg))
+	}
+	helpers(o)
 }
